@@ -227,3 +227,123 @@ impl MdkMemoryStorage {
         out
     }
 }
+
+// ---------------------------------------------------------------------------------------------
+// Lock interception for the controlled scheduler of the harness. `RwLock` below replaces
+// `parking_lot::RwLock` in this crate when the feature is on; without an installed hook it is a
+// plain pass-through.
+// ---------------------------------------------------------------------------------------------
+
+use std::ops::{Deref, DerefMut};
+use std::sync::Arc;
+use std::sync::atomic::{AtomicBool, Ordering};
+
+/// Callbacks of the harness scheduler. `lock` is the address of the lock object.
+pub trait SchedHook: Send + Sync {
+    /// Called before a lock is taken; returns when the scheduler lets the calling thread take it.
+    fn acquire(&self, lock: usize, exclusive: bool);
+    /// Called after a lock guard was dropped.
+    fn release(&self, lock: usize, exclusive: bool);
+}
+
+static SCHED_ON: AtomicBool = AtomicBool::new(false);
+static SCHED: parking_lot::RwLock<Option<Arc<dyn SchedHook>>> = parking_lot::RwLock::new(None);
+
+/// Install or remove the scheduler hook (process-wide; the hook itself decides which threads it controls).
+pub fn set_sched_hook(h: Option<Arc<dyn SchedHook>>) {
+    SCHED_ON.store(h.is_some(), Ordering::SeqCst);
+    *SCHED.write() = h;
+}
+
+fn hook() -> Option<Arc<dyn SchedHook>> {
+    if SCHED_ON.load(Ordering::Relaxed) {
+        SCHED.read().clone()
+    } else {
+        None
+    }
+}
+
+/// Drop-in for `parking_lot::RwLock` that reports acquisitions and releases to the hook.
+#[derive(Debug, Default)]
+pub struct RwLock<T>(parking_lot::RwLock<T>);
+
+/// Shared guard of [`RwLock`]
+pub struct ReadGuard<'a, T> {
+    inner: Option<parking_lot::RwLockReadGuard<'a, T>>,
+    lock: usize,
+}
+
+/// Exclusive guard of [`RwLock`]
+pub struct WriteGuard<'a, T> {
+    inner: Option<parking_lot::RwLockWriteGuard<'a, T>>,
+    lock: usize,
+}
+
+impl<T> RwLock<T> {
+    /// See `parking_lot::RwLock::new`
+    pub fn new(v: T) -> Self {
+        Self(parking_lot::RwLock::new(v))
+    }
+
+    /// See `parking_lot::RwLock::read`
+    pub fn read(&self) -> ReadGuard<'_, T> {
+        let lock = self as *const _ as usize;
+        if let Some(h) = hook() {
+            h.acquire(lock, false);
+        }
+        ReadGuard {
+            inner: Some(self.0.read()),
+            lock,
+        }
+    }
+
+    /// See `parking_lot::RwLock::write`
+    pub fn write(&self) -> WriteGuard<'_, T> {
+        let lock = self as *const _ as usize;
+        if let Some(h) = hook() {
+            h.acquire(lock, true);
+        }
+        WriteGuard {
+            inner: Some(self.0.write()),
+            lock,
+        }
+    }
+}
+
+impl<T> Deref for ReadGuard<'_, T> {
+    type Target = T;
+    fn deref(&self) -> &T {
+        self.inner.as_ref().unwrap()
+    }
+}
+
+impl<T> Deref for WriteGuard<'_, T> {
+    type Target = T;
+    fn deref(&self) -> &T {
+        self.inner.as_ref().unwrap()
+    }
+}
+
+impl<T> DerefMut for WriteGuard<'_, T> {
+    fn deref_mut(&mut self) -> &mut T {
+        self.inner.as_mut().unwrap()
+    }
+}
+
+impl<T> Drop for ReadGuard<'_, T> {
+    fn drop(&mut self) {
+        self.inner.take();
+        if let Some(h) = hook() {
+            h.release(self.lock, false);
+        }
+    }
+}
+
+impl<T> Drop for WriteGuard<'_, T> {
+    fn drop(&mut self) {
+        self.inner.take();
+        if let Some(h) = hook() {
+            h.release(self.lock, true);
+        }
+    }
+}
